@@ -63,6 +63,7 @@ def gen_inflight_script(rng):
         L += ['close', 'open']      # the active blob is re-opened in append mode: bytes land in completion order
     L += qs
     key = rng.choice(g.keys)
+    L.append('create_active')       # the faults of this stream are meant for record appends, not for the creation of a blob
     L.append('fail append .blob 0 delay:400')
     L.append('cancel 2 W %s %d - %d 9001' % (key, rng.choice([5, 7, 9, 12]), rng.choice([5, 5000, 100000])))
     seed = 9100
